@@ -223,3 +223,73 @@ func ImportCells() []Cell {
 	add("tabs-unformatted", "package main\n\nimport(\n\"fmt\"\n    \"strings\"\n)\n\n"+impBody([]int{0, 1}))
 	return cells
 }
+
+// ---- character references in constant attribute values and text
+
+// escValues are correctly escaped source texts; what they decode to contains
+// an ampersand followed by something a parser may or may not read as a
+// character reference (HTML and html.UnescapeString accept the legacy named
+// references without a terminating semicolon).
+func escValues() []struct{ name, v string } {
+	var vs []struct{ name, v string }
+	add := func(name, v string) { vs = append(vs, struct{ name, v string }{name, v}) }
+	for _, n := range []string{"copy", "reg", "lt", "gt", "amp", "quot", "not", "para", "sect", "times", "nbsp", "deg", "yen", "AMP", "LT"} {
+		add("legacy-"+n, "q=go&amp;"+n+"=2")     // decodes to &copy=2 …: legacy reference without semicolon
+		add("legacy-"+n+"-end", "a&amp;"+n)      // … at the end of the value
+		add("named-"+n+"-semi", "a&amp;"+n+";b") // decodes to &copy;b: reference with semicolon
+	}
+	add("named-nolegacy", "a&amp;hearts=1")      // &hearts is only a reference with a semicolon
+	add("named-nolegacy-semi", "a&amp;hearts;b") //
+	add("named-unknown", "a&amp;zz;b")
+	for _, n := range []string{"#60", "#x3c", "#X3C", "#38", "#39", "#34", "#0", "#x110000"} {
+		add("numeric-"+n[1:], "a&amp;"+n+"b")
+		add("numeric-"+n[1:]+"-semi", "a&amp;"+n+";b")
+	}
+	add("amp-text", "a&amp;b")
+	add("amp-space", "a &amp; b")
+	add("amp-end", "a&amp;")
+	add("amp-only", "&amp;")
+	add("amp-amp-nosemi", "&amp;amp")
+	add("amp-amp", "&amp;amp;")
+	add("double-escaped", "&amp;amp;lt;")
+	add("triple", "&amp;amp;amp;")
+	add("query", "a=1&amp;b=2&amp;copy=3")
+	add("query-url", "/search?q=go&amp;copy=2&amp;lang=en")
+	add("two-amps", "&amp;&amp;lt")
+	add("quot-ref", "say &quot;hi&quot;")
+	add("apos-ref", "it&#39;s")
+	add("apos-named", "it&apos;s")
+	add("quot-numeric", "a&#34;b")
+	add("both-quote-refs", "&quot;&#39;")
+	add("lt-gt-refs", "&lt;b&gt;")
+	add("raw-amp-legacy", "q=go&copy=2") // not escaped in the source: already means ©
+	add("nbsp-ref", "a&nbsp;b")
+	return vs
+}
+
+// EscapeCells puts each escaped value into an attribute (double-quoted,
+// single-quoted, unquoted where the grammar allows it, void element,
+// conditional attribute), a text node, an HTML comment and the raw elements.
+func EscapeCells() []Cell {
+	var cells []Cell
+	add := func(name, body string) {
+		body += "\n"
+		cells = append(cells, Cell{Name: "cell=esc-" + name, Body: body, Src: FileOf(body), NoBase: true})
+	}
+	for _, e := range escValues() {
+		add("dq-"+e.name, `<a href="`+e.v+`">x</a>`)
+		add("sq-"+e.name, `<a href='`+e.v+`'>x</a>`)
+		if !strings.ContainsAny(e.v, " \t\n<>\"'`=") {
+			add("unq-"+e.name, `<a href=`+e.v+` >x</a>`)
+		}
+		add("void-"+e.name, `<input value="`+e.v+`"/>`)
+		add("cond-"+e.name, "<div\nif b {\ntitle=\""+e.v+"\"\n}\n>x</div>")
+		add("two-attrs-"+e.name, `<a title="`+e.v+`" href="`+e.v+`">x</a>`)
+		add("text-"+e.name, `<p>`+e.v+`</p>`)
+		add("text-top-"+e.name, e.v)
+		add("comment-"+e.name, `<!-- `+e.v+` -->`)
+		add("style-"+e.name, `<style>p::after { content: "`+e.v+`"; }</style>`)
+		add("script-"+e.name, `<script>var x = "`+e.v+`";</script>`)
+	}
+	return cells
+}
